@@ -164,6 +164,15 @@ fn make_variants(u: &mut Choices, file: &File) -> Vec<Variant> {
             }
         }
     }
+    if out.is_empty() {
+        // nothing above applied (single-line, single-rule program): a duplicated line always does
+        let k = 0;
+        let mut len = 0;
+        with_cnf(file, k, &mut |c| len = c.len());
+        if len >= 1 {
+            out.push(Variant { op: "duplicate-line cnf#0 line 0 at 0".to_string(), file: with_cnf(file, k, &mut |c| c.insert(0, c[0].clone())), copies: vec![] });
+        }
+    }
     out
 }
 
@@ -210,7 +219,113 @@ fn compare(doc: &str, base: &str, variant: &str, copies: &[(String, String)]) ->
     Ok(Some(mb))
 }
 
+// ------------------------------------------------------------------------------------------------
+// a rule name defined twice: the order of the two definitions must not matter either
+
+fn multi_status(v: &Verdict) -> Option<(BTreeMap<String, Vec<St>>, St)> {
+    match v {
+        Verdict::Ok { rules, file } => {
+            let mut m: BTreeMap<String, Vec<St>> = BTreeMap::new();
+            for (n, s) in rules {
+                m.entry(n.clone()).or_default().push(*s);
+            }
+            m.values_mut().for_each(|v| v.sort());
+            Some((m, *file))
+        }
+        _ => None,
+    }
+}
+
+fn compare_multi(doc: &str, base: &str, variant: &str) -> Result<Option<usize>, (String, String)> {
+    let (vb, _) = verdict(doc, base);
+    let (vv, _) = verdict(doc, variant);
+    for v in [&vb, &vv] {
+        match v {
+            Verdict::Panic(p) => return Err((format!("panic {}", p), format!("panic:{}", p.split(' ').next().unwrap_or("")))),
+            Verdict::ParseErr(e) => return Err((format!("generated program rejected by the parser: {}", e), "c04:generator-invalid".into())),
+            _ => {}
+        }
+    }
+    match (multi_status(&vb), multi_status(&vv)) {
+        (Some((a, fa)), Some((b, fb))) => {
+            if a != b || fa != fb {
+                let n = a.iter().find(|(k, v)| b.get(*k) != Some(v)).map(|(k, _)| k.clone()).unwrap_or_default();
+                return Err((format!("with the two definitions of a rule name exchanged, rule {} changes: {} vs {}", n, vb.short(), vv.short()), "c04:duplicate-names:status-changed".into()));
+            }
+            Ok(Some(a.values().filter(|v| v.len() > 1 && v.first() != v.last()).count()))
+        }
+        _ => Ok(None),
+    }
+}
+
+fn dup_case(u: &mut Choices, sz: Size) -> CaseResult {
+    let doc = gen_doc(u, &sz);
+    let mut file = gen_core_file(u, &doc, sz, true, true);
+    // make sure a name is defined twice: the last rule takes the name of an earlier one, and
+    // references to its old name follow
+    if file.rules.len() == 1 {
+        // a second, simple definition of the only name
+        let name = file.rules[0].name.clone();
+        file.rules.push(Rule { name, when: None, lets: vec![], body: vec![vec![Item::Clause(cl_un(q_key(&[KEYS[u.below(KEYS.len())]]), UnOp::Exists, u.chance(1, 2)))]] });
+    }
+    let n = file.rules.len();
+    if n >= 2 && !(0..n).any(|i| (i + 1..n).any(|j| file.rules[i].name == file.rules[j].name)) {
+        let i = u.below(n - 1);
+        let (old, new) = (file.rules[n - 1].name.clone(), file.rules[i].name.clone());
+        file.rules[n - 1].name = new.clone();
+        visit_cnfs(&mut file, &mut |cnf: &mut Cnf| {
+            for line in cnf.iter_mut() {
+                for it in line.iter_mut() {
+                    if let Item::Ref { name, .. } = it {
+                        if *name == old {
+                            *name = new.clone();
+                        }
+                    }
+                }
+            }
+        });
+    }
+    // the two definitions of the duplicated name
+    let mut pair = None;
+    'o: for i in 0..file.rules.len() {
+        for j in i + 1..file.rules.len() {
+            if file.rules[i].name == file.rules[j].name {
+                pair = Some((i, j));
+                break 'o;
+            }
+        }
+    }
+    let (i, j) = match pair {
+        Some(p) => p,
+        None => return CaseResult::Discard("no-duplicated-name"),
+    };
+    let mut f2 = file.clone();
+    f2.rules.swap(i, j);
+    let (doc_text, base, variant) = (doc.to_json(), print_file(&file), print_file(&f2));
+    let referenced = base.lines().any(|l| {
+        let t = l.trim().trim_start_matches("not ");
+        t == file.rules[i].name
+    });
+    match compare_multi(&doc_text, &base, &variant) {
+        Ok(None) => CaseResult::Discard("evaluation-error-in-some-ordering"),
+        Ok(Some(mixed)) => CaseResult::Pass(Info {
+            nontrivial: mixed > 0,
+            key: hash_case(&[&doc_text, &base]),
+            classes: vec![format!("duplicate-name:definitions-differ:{}", mixed > 0), format!("duplicate-name:referenced:{}", referenced)],
+            evals: 2,
+            sample: Some(json!({"doc": doc_text, "base": base, "variant": variant})),
+        }),
+        Err((msg, sig)) => CaseResult::Fail(Failure { msg, sig, case: json!({"kind": "duplicate-names", "doc": doc_text, "base": base, "variant": variant}) }),
+    }
+}
+
 pub fn replay(case: &J) -> CaseResult {
+    if case["kind"] == "duplicate-names" {
+        return match compare_multi(case["doc"].as_str().unwrap_or(""), case["base"].as_str().unwrap_or(""), case["variant"].as_str().unwrap_or("")) {
+            Ok(_) => CaseResult::Pass(Info::default()),
+            Err((msg, sig)) => CaseResult::Fail(Failure { msg, sig, case: case.clone() }),
+        };
+    }
     let doc = case["doc"].as_str().unwrap_or("");
     let copies: Vec<(String, String)> = case["copies"].as_array().map(|a| a.iter().map(|p| (p[0].as_str().unwrap_or("").to_string(), p[1].as_str().unwrap_or("").to_string())).collect()).unwrap_or_default();
     match compare(doc, case["base"].as_str().unwrap_or(""), case["variant"].as_str().unwrap_or(""), &copies) {
@@ -284,6 +399,7 @@ pub fn run(tier: Tier, seed: u64) -> i32 {
     };
     execute("C04", tier, seed, spec, &replay, &|run: &Session| {
         let sz = tier.pick(Size::quick(), Size::thorough());
+        run.run_random("duplicate-names", tier.pick(6_000, 120_000), tier.pick(1200, 2400), |u| dup_case(u, sz));
         run.run_random("permutations", tier.pick(25_000, 600_000), tier.pick(1200, 2400), |u| random_case(u, sz));
         let st = run.stats.lock().unwrap();
         let disc: u64 = st.discards.values().sum();
